@@ -387,6 +387,7 @@ static void path_exit(int kind, const char* msg) {
 }
 
 static bool trace_forks = false;
+static bool abs_nofork = false;
 static std::map<unsigned, bool>* decided;      // per path: simplified condition (ast id) -> truth value on this path
 static std::vector<z3::expr>* keep;            // keeps those asts alive so that ids are not reused
 // Decide a symbolic condition: returns the concrete truth value for this path, forking if both are feasible.
@@ -654,7 +655,12 @@ double __sym_un(const char* name, double a) {
   }
   if (mode == REAL) {
     Term ta = T(a); z3::expr x = E(ta);
-    if (n == "fabs") { if (__sym_fcmp(3, a, 0.0)) return a; return __sym_neg(a); }
+    if (n == "fabs") {
+      if (abs_nofork) {   // |a| as a fresh value t with t>=0 and (t=a or t=-a): no path split on the sign of a (the solver case-splits internally when the sign matters)
+        bool fresh; TApp& ap = get_app("abs", ta, fresh);
+        if (fresh) { use_axiom("abs: t=|a| introduced as t>=0 and (t=a or t=-a), without forking on the sign of a"); add_pc(ap.val >= 0); add_pc(ap.val == x || ap.val == -x); }
+        return ap.h; }
+      if (__sym_fcmp(3, a, 0.0)) return a; return __sym_neg(a); }
     if (n == "sqrt") {
       if (decide(diffp(ta, tconst(0)) < ctx->real_val(0))) return NAN;     // sqrt of a negative real is NaN (concrete)
       bool fresh; TApp& ap = get_app("sqrt", ta, fresh);
@@ -826,6 +832,7 @@ int main(int argc, char** argv) {
   if (getenv("SYM_TIMEOUT_MS")) timeout_ms = atoi(getenv("SYM_TIMEOUT_MS"));
   if (getenv("SYM_UNKNOWN_ABORT")) unknown_both = false;
   if (getenv("SYM_TRACE_FORKS")) trace_forks = true;
+  if (getenv("SYM_ABS_NOFORK")) abs_nofork = true;
   if (const char* o = getenv("SYM_OUT")) { outfd = open(o, O_WRONLY | O_CREAT | O_APPEND, 0644); if (outfd < 0) { perror("SYM_OUT"); return 2; } }
   sh = (Shared*)mmap(0, sizeof(Shared), PROT_READ | PROT_WRITE, MAP_SHARED | MAP_ANONYMOUS, -1, 0);
   memset(sh, 0, sizeof(Shared)); sh->maxprocs = getenv("SYM_PROCS") ? atoi(getenv("SYM_PROCS")) : 1;
